@@ -16,6 +16,7 @@ Inductive hop :=
 Inductive case :=
 | CRoot (ops : list hop) (errs : list bool) (impl : bytes)
 | CGet (ops : list hop) (k : bytes) (impl : option bytes)
+| CGets (ops : list hop) (impl : list (bytes * option bytes))   (* every key re-read after flush + collapse/reload, any storage mode *)
 | CFind (ops : list hop) (prefix from : bytes) (from_nil : bool) (maxn : N) (impl : list (bytes * bytes))
 | CSeek (ops : list hop) (prefix start : bytes) (bw : bool) (impl : list (bytes * bytes))
 | CProof (ops : list hop) (k : bytes) (impl : option (list bytes))
@@ -127,6 +128,15 @@ Definition check_case (c : case) : N :=
         let '(m, _) := sexec [] ops in
         let s := if N.of_nat (length k) <=? max_key_len then aget m (to_nibbles k) else None in
         code_of (obeqb (trie_get t k) impl) (obeqb s impl)
+      else 3
+  | CGets ops impl =>
+      (* the storage mode (All / Latest / GC) is not an input of the model: the answers cannot depend on it *)
+      if forallb wf_hop ops then
+        let '(t, _) := exec Empty ops in
+        let '(m, _) := sexec [] ops in
+        let rd (f : bytes -> option bytes) := forallb (fun e => obeqb (f (fst e)) (snd e)) impl in
+        code_of (rd (trie_get t))
+                (rd (fun k => if N.of_nat (length k) <=? max_key_len then aget m (to_nibbles k) else None))
       else 3
   | CFind ops prefix from from_nil maxn impl =>
       if forallb wf_hop ops then
